@@ -129,6 +129,14 @@ pub fn child_main(json: &str) -> i32 {
             if failed { if let Src::Bytes(b) = &mut s.src { b.push(0xff); } }
         }
         s
+    } else if let Some(entry) = Entry::from_name(&sc.via) {
+        // `via` may name any of the 13 entry points
+        let mut evs: Vec<Ev> = text.chars().map(|c| Ev::Item(c, c.len_utf8() as u32)).collect();
+        if fails { evs.push(Ev::Fail(9)); }
+        let mut s = StreamSc { entry, target: Target::Value, opts: sc.opts, src: Src::Events(evs), faults: vec![] };
+        s.normalise();
+        if fails && entry.bytes() { if let Src::Bytes(b) = &mut s.src { b.push(0xff); } }
+        s
     } else { match sc.via.as_str() {
         // on the byte path a failing stream is an ill-formed byte
         "slice" => { let mut b = text.into_bytes(); if fails { b.push(0xff); } StreamSc { entry: Entry::SliceWith, target: Target::Value, opts: sc.opts, src: Src::Bytes(b), faults: vec![] } }
